@@ -6,6 +6,7 @@ import (
 	"time"
 
 	"github.com/tokenized/pkg/bitcoin"
+	"github.com/tokenized/pkg/wire"
 )
 
 type VerifReq struct {
@@ -40,4 +41,17 @@ func (state *State) VerifShiftClocks(d time.Duration) {
 	for _, r := range state.blocksRequested {
 		r.time = r.time.Add(-d)
 	}
+}
+
+// VerifWrapBlock replaces the buffered block of the request for hash by wrap(block).
+func (state *State) VerifWrapBlock(hash bitcoin.Hash32, wrap func(wire.Block) wire.Block) bool {
+	state.lock.Lock()
+	defer state.lock.Unlock()
+	for _, r := range state.blocksRequested {
+		if r.hash.Equal(&hash) && r.block != nil {
+			r.block = wrap(r.block)
+			return true
+		}
+	}
+	return false
 }
